@@ -256,10 +256,10 @@ func runSched(t *testing.T, prop string, kinds []string) {
 			UdCalls: rapid.IntRange(1, 2).Draw(rt, "udcalls"), Extra: rapid.IntRange(0, 59).Draw(rt, "extra"),
 			Mode: rapid.SampledFrom([]string{"pct", "pct", "pct", "random"}).Draw(rt, "mode")}
 		if p.Mode == "pct" {
-			p.Prio = rapid.SliceOfN(rapid.Uint8Range(0, 7), 5, 5).Draw(rt, "priorities")
-			p.Changes = rapid.SliceOfN(rapid.Uint8Range(0, 40), 0, 3).Draw(rt, "changePoints")
+			p.Prio = rapid.SliceOfN(rapid.IntRange(0, 7), 5, 5).Draw(rt, "priorities")
+			p.Changes = rapid.SliceOfN(rapid.IntRange(0, 40), 0, 3).Draw(rt, "changePoints")
 		} else {
-			p.Choices = rapid.SliceOfN(rapid.Uint8Range(0, 5), 0, 80).Draw(rt, "schedule")
+			p.Choices = rapid.SliceOfN(rapid.IntRange(0, 5), 0, 80).Draw(rt, "schedule")
 		}
 		if f := one(p); f != "" {
 			rt.Fatalf("%s", f)
